@@ -170,6 +170,22 @@ def np_genotypes(geno, dtype):
     if dtype is None:
         return geno
     import numpy as np
+    if ":" in dtype:
+        # non-contiguous views holding the same values: strided, reversed, a column of a 2-D array
+        base, layout = dtype.split(":")
+        a = np.array(geno, dtype=base)
+        if layout == "strided":
+            b = np.full(2 * len(a) + 1, 7, dtype=base)
+            b[::2][:len(a)] = a
+            v = b[::2][:len(a)]
+        elif layout == "reversed":
+            v = np.array(a[::-1])[::-1]
+        else:
+            b = np.full((len(a), 3), 9, dtype=base)
+            b[:, 1] = a
+            v = b[:, 1]
+        assert len(a) < 2 or not v.flags["C_CONTIGUOUS"] or layout == "reversed"
+        return v
     return np.array(geno, dtype=dtype)
 
 
@@ -496,6 +512,9 @@ class SingleBase(Family):
         alleles = case_names(case, case["nalleles"])
         res = run_mm(tree, case["geno"], alleles, anc_arg(case["anc"], alleles), case.get("dtype"))
         o = {"res": res}
+        if case.get("big"):
+            o["table"] = None          # oracle only: the arrays are too large for a case term
+            return o
         o.update(tree_arrays(tree))
         o["virtual_root"] = int(tree.virtual_root)
         o["table"] = table_roundtrip(tree, case, res)
@@ -505,6 +524,8 @@ class SingleBase(Family):
         return one_case_oracle(case, obs)
 
     def coq_check(self, case, obs):
+        if case.get("big"):
+            return None
         names = case_names(case, case["nalleles"])
         return "check_case %s %s %s %s %s" % (
             coq_arrays(obs), clist(case["geno"]), coq_anc(case["anc"], names), clist(tokens_of(names)),
@@ -639,7 +660,8 @@ class Single(SingleBase):
                 if nm is not None:
                     c["names"] = nm
                 if rng.random() < 0.3:
-                    c["dtype"] = rng.choice(["int8", "int16", "int32", "int64"] + ([] if min(g) < 0 else ["uint8", "uint16", "uint64"]))
+                    c["dtype"] = rng.choice(["int8", "int16", "int32", "int64", "int32:strided", "int32:reversed", "int32:column",
+                                             "int8:strided", "int64:column"] + ([] if min(g) < 0 else ["uint8", "uint16", "uint64"]))
                 r = rng.random()
                 if r < 0.05:
                     c["null_tree"] = True
@@ -767,6 +789,197 @@ class Boundary(SingleBase):
 
     def shrink(self, case):
         return []
+
+
+def star_min_changes(counts, anc=None):
+    """closed form for a star whose centre is a non-sample root: leaves carry `counts[a]` copies
+    of allele a; centre state c costs (leaves not in state c) + [anc fixed and c != anc]."""
+    n = sum(counts.values())
+    best = None
+    states = set(counts) | ({anc} if anc is not None else set())
+    for c in states:
+        v = n - counts.get(c, 0) + (1 if anc is not None and c != anc else 0)
+        best = v if best is None else min(best, v)
+    return best
+
+
+class Wide(SingleBase):
+    """Very wide polytomies: per-allele child counts around 255/256/257/300 and 65536+1 with
+    skewed allele frequencies (integer widths of the counters in the Hartigan pass)."""
+    name = "wide"
+    shard = 6
+    timeout = 120.0
+
+    def generate(self, rng, tier):
+        specs = [(255, 45), (256, 44), (257, 43), (256, 256), (300, 200), (512, 300), (600, 90)]
+        if tier != "quick":
+            specs += [(256, 1), (511, 255), (768, 513), (1024, 5)]
+        for major, minor in specs:
+            for variant in ("root", "inner"):
+                A, B = rng.sample(range(3), 2)
+                leaves = [A] * major + [B] * minor
+                extra = rng.randrange(0, 3)
+                leaves += [rng.choice([NULL, 2 if 2 not in (A, B) else A])] * extra
+                rng.shuffle(leaves)
+                n = len(leaves)
+                if variant == "root":
+                    parent = [n] * n + [NULL]
+                    flags = [1] * n + [0]
+                    geno = list(leaves)
+                else:   # the polytomy hangs under a binary root next to one more sample
+                    parent = [n] * n + [n + 2, n + 2, NULL]
+                    flags = [1] * n + [0, 1, 0]
+                    geno = list(leaves) + [B]
+                anc = rng.choice([None, None, ["int", A], ["int", B], ["str", A]])
+                c = {"parent": parent, "flags": flags, "geno": geno, "anc": anc, "nalleles": 3,
+                     "star": variant == "root"}
+                if rng.random() < 0.5:
+                    c["names"] = ["2", "0", "1"]
+                yield c
+        # 2**16 + 1 children sharing an allele: oracle only
+        for major, minor in ([(65537, 300)] if tier == "quick" else [(65537, 300), (65536, 65535), (70000, 65537)]):
+            leaves = [1] * major + [0] * minor
+            n = len(leaves)
+            yield {"parent": [n] * n + [NULL], "flags": [1] * n + [0], "geno": leaves, "anc": None,
+                   "nalleles": 2, "star": True, "big": True}
+
+    def oracle(self, case, obs):
+        out = one_case_oracle(case, obs)
+        res = obs["res"]
+        if case.get("star") and "muts" in res:
+            counts = {}
+            for g in case["geno"]:
+                if g != NULL:
+                    counts[g] = counts.get(g, 0) + 1
+            want = star_min_changes(counts, anc_index(case["anc"], case_names(case, case["nalleles"])))
+            if len(res["muts"]) != want:
+                out.append(("non-parsimonious:star-closed-form", "%d mutations, closed form %d" % (len(res["muts"]), want)))
+        return out
+
+    def describe(self, case, obs):
+        return {"children": len(case["geno"]), "n_mut": len(obs["res"].get("muts", []))}
+
+    def shrink(self, case):
+        return []
+
+
+class Reuse(Family):
+    """Histories on ONE Tree object: rejected calls (bad genotype -2 at a late sample, genotype
+    64, wrong length, all missing, bad ancestral state through the low-level method) followed
+    by valid calls, also after moving the tree; every valid call must give what a fresh Tree gives
+    and satisfy the property."""
+    name = "reuse"
+    prelude = SingleBase.prelude
+    workers = 6
+    shard = 60
+
+    def generate(self, rng, tier):
+        for _ in range(120 if tier == "quick" else 1500):
+            n = rng.randrange(2, 9)
+            parent = [rng.choice([NULL] + list(range(u + 1, n))) for u in range(n)]
+            flags = [1 if rng.random() < 0.75 else 0 for _ in range(n)]
+            flags[0] = 1
+            if sum(flags) < 2:
+                flags[1] = 1
+            k = sum(flags)
+            K = rng.choice([2, 3, 4])
+
+            def valid():
+                g = [rng.choice([NULL] + list(range(K)) * 3) for _ in range(k)]
+                if all(x == NULL for x in g):
+                    g[rng.randrange(k)] = rng.randrange(K)
+                return {"geno": g, "anc": rng.choice([None, None, ["int", rng.randrange(K)], ["str", rng.randrange(K)]])}
+
+            def rejected():
+                kind = rng.choice(["neg2", "neg2", "neg2", "g64", "len", "allmissing", "ll_anc", "ll_neg2", "anc_range"])
+                g = [rng.randrange(K) for _ in range(k)]
+                c = {"anc": None, "kind": kind}
+                if kind in ("neg2", "ll_neg2"):
+                    g[rng.randrange(1, k)] = rng.choice([-2, -3, -100])     # earlier samples get their bits set first
+                elif kind == "g64":
+                    g[rng.randrange(k)] = 64
+                elif kind == "len":
+                    g = g + [0] if rng.random() < 0.5 else g[:-1]
+                elif kind == "allmissing":
+                    g = [NULL] * k
+                elif kind == "ll_anc":
+                    c["anc"] = ["int", rng.choice([64, -1, 1000])]
+                elif kind == "anc_range":
+                    c["anc"] = ["int", K + 5]
+                c["geno"] = g
+                c["ll"] = kind.startswith("ll_")
+                return c
+
+            calls = []
+            for _ in range(rng.randrange(2, 6)):
+                calls.append(rejected() if rng.random() < 0.45 else valid())
+            if not any("kind" in c for c in calls):
+                calls.insert(0, rejected())
+            calls.append(valid())
+            case = {"parent": parent, "flags": extra_flags(rng, flags), "nalleles": K, "calls": calls}
+            nm = name_scheme(rng, K)
+            if nm is not None:
+                case["names"] = nm
+            yield case
+
+    def observe(self, case):
+        tree = build_tree(case)
+        alleles = case_names(case, case["nalleles"])
+        out = []
+        for c in case["calls"]:
+            if c.get("ll"):
+                try:
+                    import numpy as np
+                    a, trs = tree._ll_tree.map_mutations(np.array(c["geno"], dtype=np.int8),
+                                                         None if c["anc"] is None else c["anc"][1])
+                    r = {"anc": int(a), "muts": [[int(x[0]), int(x[2]), int(x[1])] for x in trs]}
+                except Exception as e:  # noqa: BLE001
+                    r = {"exc": type(e).__name__}
+                out.append({"res": r, "fresh": None})
+                continue
+            r = run_mm(tree, c["geno"], alleles, anc_arg(c["anc"], alleles))
+            fresh = run_mm(build_tree(case), c["geno"], alleles, anc_arg(c["anc"], alleles))
+            out.append({"res": r, "fresh": fresh})
+        o = {"calls": out}
+        o.update(tree_arrays(tree))
+        return o
+
+    def oracle(self, case, obs):
+        fails = []
+        shape = Shape(case["parent"], [f & 1 for f in case["flags"]])
+        nal = case["nalleles"]
+        names = case_names(case, nal)
+        for i, (c, o) in enumerate(zip(case["calls"], obs["calls"])):
+            r = o["res"]
+            if "kind" in c:
+                if "exc" not in r:
+                    fails.append(("invalid-input-accepted", "call %d (%s) -> %r" % (i, c["kind"], r)))
+                continue
+            if o["fresh"] != r:
+                fails.append(("reused-tree-differs-from-fresh-tree", "call %d: %r vs fresh %r" % (i, r, o["fresh"])))
+            if "exc" in r:
+                fails.append(("unexpected-exception", "call %d: %s" % (i, r["exc"])))
+                continue
+            opt = sankoff(shape, c["geno"], nal + 1)
+            for key, msg in check_result(shape, c["geno"], anc_index(c["anc"], names), r, opt, nal):
+                fails.append((key, "call %d: %s" % (i, msg)))
+        return fails
+
+    def coq_check(self, case, obs):
+        names = case_names(case, case["nalleles"])
+        terms = []
+        for c, o in zip(case["calls"], obs["calls"]):
+            if c.get("ll"):
+                continue                    # below the public API: not a wrapper observation
+            terms.append("check_case %s %s %s %s %s" % (coq_arrays(obs), clist(c["geno"]), coq_anc(c["anc"], names),
+                                                        clist(tokens_of(names)), coq_result(o["res"])))
+        return "(" + " && ".join(terms) + ")" if terms else None
+
+    def nontrivial(self, case, obs):
+        return any("muts" in o["res"] and o["res"]["muts"] for o in obs["calls"])
+
+    def describe(self, case, obs):
+        return {"calls": len(case["calls"]), "rejected": sum(1 for c in case["calls"] if "kind" in c)}
 
 
 class Random(SingleBase):
@@ -979,7 +1192,7 @@ class Malformed(Family):
         return {"outcome": obs["res"].get("exc", "ok")}
 
 
-FAMILIES = [Single, Exhaustive, Random, RootThreshold, Boundary, Malformed]
+FAMILIES = [Single, Exhaustive, Random, RootThreshold, Boundary, Wide, Reuse, Malformed]
 NOT_COVERED = [
     "cost_matrix argument of tsk_tree_map_mutations (unused by the code)",
     "genotypes given as non-integer arrays (TypeError paths of safe_np_int_cast)",
